@@ -32,10 +32,12 @@ def run(ctx):
     for i in ctx.cases(n):
         rng = ctx.rng(i)
         kk = str(rng.choice(["default", "default-custom", "normal"], p=[.35, .4, .25]))
+        pkw = dict(kkind=kk, N=int(rng.choice([3, 10, 40, 150])), profile=str(rng.choice(["flat", "moderate", "sharp"])))
+        if i % 12 == 7:
+            # many surveys: two-digit offset names (dv0_10 sorts before dv0_2 as a string)
+            pkw.update(n_offsets=int(rng.integers(10, 13)), N=int(rng.choice([3, 10])), profile="flat")
         try:
-            r = session.one_session(ctx, i, rng, force=dict(n_linear_samples=int(rng.choice([1, 2, 7]))),
-                                    problem_kw=dict(kkind=kk, N=int(rng.choice([3, 10, 40, 150])),
-                                                    profile=str(rng.choice(["flat", "moderate", "sharp"]))))
+            r = session.one_session(ctx, i, rng, force=dict(n_linear_samples=int(rng.choice([1, 2, 7]))), problem_kw=pkw)
         except Exception as e:
             ctx.exception(e, "session", dict(index=i))
             continue
